@@ -92,7 +92,33 @@ pub fn run(a: &Args) -> i32 {
             }
         }
         let sdl = schema.to_sdl(&RenderKnobs::default());
-        let text = if rng.chance(70) { decorate(&mut rng, &doc.render()) } else { doc.render() };
+        // the first documents are decorated in fixed ways (and always compiled in the library form and as a derive, see
+        // below): CR LF line ends, a byte order mark, `"#` sequences and a lone CR inside comments, trailing blanks
+        let forced = case_i < 6;
+        let text = if forced {
+            let plain = doc.render();
+            let mut t = String::new();
+            for (k, line) in plain.lines().enumerate() {
+                if k % 3 == 1 {
+                    t.push_str("# a comment with \"# and \"## and r#\"raw\"# look-alikes, ünïcode ✓\n");
+                }
+                t.push_str(line);
+                if k % 4 == 2 {
+                    t.push_str("  \t");
+                }
+                t.push('\n');
+            }
+            if case_i % 2 == 0 {
+                t = t.replace('\n', "\r\n");
+            }
+            if case_i % 3 == 0 {
+                t = format!("\u{feff}{}", t);
+            }
+            if case_i == 5 {
+                t.push_str("\n\n# trailing blank lines and a comment without a newline at the end");
+            }
+            t
+        } else if rng.chance(70) { decorate(&mut rng, &doc.render()) } else { doc.render() };
         if graphql_parser::parse_query::<String>(&text).is_err() {
             rep.internal.push(format!("decorated document does not parse:\n{}", text));
             continue;
@@ -196,7 +222,7 @@ pub fn run(a: &Args) -> i32 {
                     }
                     // compile a subset: library tokens (CLI form)
                     let snake_clash = op_names.iter().any(|n| heck::ToSnakeCase::to_snake_case(n.as_str()) == *n);
-                    if !opts.derive_mode && !snake_clash && codes.len() < 24 && rng.chance(40) {
+                    if !opts.derive_mode && !snake_clash && (codes.len() < 24 && rng.chance(40) || forced && label == "cli-none") {
                         if let RealOutcome::Ok(tokens) = &res.real {
                             let id = codes.len();
                             let ops: Vec<(String, String)> = mods.iter().map(|m| (m.sexp.items()[8].as_str().unwrap_or("").to_string(), m.mod_name.clone())).collect();
@@ -232,7 +258,7 @@ pub fn run(a: &Args) -> i32 {
             }
         }
         // a few real derives: matching and non-matching struct names
-        if extra_files.len() < 16 && !doc.has_recursive_fragment() && custom_scalars(&schema).is_empty() {
+        if (extra_files.len() < 16 || forced) && !doc.has_recursive_fragment() {
             let id = codes.len();
             extra_files.push((format!("files/s{}.graphql", id), sdl.clone()));
             extra_files.push((format!("files/q{}.graphql", id), text.clone()));
@@ -247,7 +273,8 @@ pub fn run(a: &Args) -> i32 {
                 let pg = PayloadGen { s: &schema, doc: &doc, deny_deprecated: false, max_list: 2, depth_budget: 4, absent_percent: 0 };
                 let assignment = if doc.ops[0].vars.is_empty() { "null".to_string() } else { pg.variables(&mut rng, &doc.ops[0]).to_string() };
                 compiled_meta.push((id, good.clone(), good.clone(), text.clone(), assignment));
-                codes.push(CaseCode { id, prelude: String::new(), tokens, ops: vec![(good.clone(), heck::ToSnakeCase::to_snake_case(good.as_str()))], enums: vec![], no_serialize: false });
+                // (custom scalars of the schema are supplied next to the struct, as the derive's users do)
+                codes.push(CaseCode { id, prelude: prelude_for(&schema, &Opts::default()), tokens, ops: vec![(good.clone(), heck::ToSnakeCase::to_snake_case(good.as_str()))], enums: vec![], no_serialize: false });
                 // and a struct that names no operation: must not compile, and must say which operations exist
                 let bad_id = codes.len();
                 let tokens = format!(
